@@ -63,6 +63,9 @@ pub struct Emitter {
     pub n: u64,
     pub tags: BTreeMap<String, u64>,
     pub replay: bool,
+    /// a panic is reported as outcome `P` but is not by itself a violation (used where the
+    /// harness deliberately builds panicking closures and the model must predict the panic)
+    pub panic_ok: bool,
 }
 
 impl Emitter {
@@ -74,6 +77,7 @@ impl Emitter {
             n: 0,
             tags: BTreeMap::new(),
             replay: false,
+            panic_ok: false,
         }
     }
     /// record one case. `line` must not contain tabs or newlines.
@@ -81,7 +85,7 @@ impl Emitter {
         let r = catch_unwind(AssertUnwindSafe(f));
         let obs = match r {
             Ok(o) => o,
-            Err(_) => Obs { out: "P".to_string(), violation: Some("panic".to_string()), tags: vec!["panic"] },
+            Err(_) => Obs { out: "P".to_string(), violation: if self.panic_ok { None } else { Some("panic".to_string()) }, tags: vec!["panic"] },
         };
         writeln!(self.cases, "{}", line).unwrap();
         let v = match &obs.violation { Some(w) => format!("V:{}", w.replace('\t', " ").replace('\n', " ")), None => "ok".to_string() };
